@@ -19,6 +19,7 @@ THEOREMS = [
     'C13_toolchain_too_large_every_request', 'C13_toolchain_fits_every_request',
     'C13_rlibs_complete_when_object_code_needed', 'C13_rlib_never_missing', 'C13_rlib_missing_refuted_before_fix',
     'C13_simplify_same_file', 'C13_rlib_deps_current',
+    'C13_lib_prefix_once', 'C13_lib_prefix_trim_all_refuted',
     'C13_route_handler_faults_fall_back', 'C13_alias_toolchains_match', 'C13_alias_canonical_key_refuted',
     'C13_dist_args', 'C13_dist_args_ignore_pp_dep', 'C13_dist_lang_known',
     'C13_dist_args_refuted_before_fix', 'C13_dist_lang_refuted_before_fix',
@@ -1091,6 +1092,18 @@ def _legs(tier):
                  'inputs of top packaged by the real Rust::new / parse_arguments / generate_hash_key / into_dist_packagers / '
                  'write_inputs with ONE compiler object (one RlibDepReader cache) per history; bdep / ddep are rebuilt to the '
                  'same path with or without a reference to cdep'),
+        Leg('rustnames',
+            lambda rng, tier: [[n] for n in (b'cdep', b'libutil', b'lib_sys', b'liblzma_shim', b'liblib', b'libc', b'lib',
+                                             b'xlib', b'li', b'blib', b'libliblibz')],
+            monitor=lambda case, out: ([] if out == b'no_rustc' else
+                                       (['packaging failed: %r' % (out,)] if not (isinstance(out, list) and len(out) == 3 and all(isinstance(x, int) for x in out)) else
+                                        ['the library lib%s-1111.rlib of crate `%s`, which bdep\'s metadata names, is not in the inputs '
+                                         'archive sent to the build server' % (case[0].decode(), case[0].decode())] * (0 if out[2] else 1)
+                                        + ['an extern rlib is missing from the inputs archive'] * (0 if out[0] and out[1] else 1))),
+            shards=11, stats=lambda case, out: ['name=' + case[0].decode()],
+            nontrivial=lambda case, out: case[0].startswith(b'lib'),
+            rule='the rustdeps workspace with the transitive dependency called cdep, libutil, lib_sys, liblzma_shim, liblib, libc, '
+                 'lib, xlib, li, blib, libliblibz: built with the installed rustc, packaged by the real Rust::new .. write_inputs'),
         Leg('routes', gen_routes, monitor=mon_routes, shards=8,
             stats=lambda case, out: ['route=%s/%s/%d' % (case[0].decode(), case[1].decode(), case[2])],
             nontrivial=lambda case, out: case[1] != b'probe',
